@@ -419,7 +419,12 @@ fn step_c17(m: &VModel, w: &mut VWorld, s: &VSt, a: &VAct, out: &mut StepOut) ->
     let e = e_ev;
     // receiving side: swap_input add (receives base), swap_output add (receives quote) => ok iff e >= limit
     let receiving = add;
-    for lim in [e.saturating_sub(1), e, e + 1] {
+    // the whole range of the limit's type, not only the neighbourhood of the executed amount: a limit is a limit
+    // whatever its size (sentinels such as the type's maximum included)
+    let mut lims = vec![1, e / 2, e.saturating_sub(1), e, e + 1, e.saturating_mul(2), 1u128 << 64, 1u128 << 127, u128::MAX - 1, u128::MAX];
+    lims.sort_unstable();
+    lims.dedup();
+    for lim in lims {
         if lim == 0 {
             continue;
         }
